@@ -225,6 +225,27 @@ func stmtCount(rel, recv, fn, kind string) int64 {
 	return n
 }
 
+// firstPos: byte offset of the first occurrence of a source fragment inside a function body
+// (-1 if absent). Used for "A happens before B" facts.
+func firstPos(rel, recv, fn, frag string) int {
+	fd := findFunc(rel, recv, fn)
+	if fd == nil {
+		return -1
+	}
+	return strings.Index(src(fd.Body), frag)
+}
+
+func before(rel, recv, fn, a, b string) string {
+	pa, pb := firstPos(rel, recv, fn, a), firstPos(rel, recv, fn, b)
+	if pa < 0 || pb < 0 {
+		return "MISSING"
+	}
+	if pa < pb {
+		return "before"
+	}
+	return "after"
+}
+
 type fact struct {
 	Name  string `json:"name"`
 	Kind  string `json:"kind"`
@@ -322,6 +343,14 @@ func main() {
 			facts = append(facts, fact{"n_" + k + "_" + f[3], "nat", strconv.FormatInt(stmtCount(f[0], f[1], f[2], k), 10), f[0] + ":" + f[1] + "." + f[2] + " [#" + k + "]"})
 		}
 	}
+	// orderings inside functions
+	facts = append(facts, fact{"ord_rewrite_clamp_scan", "op", before("value.go", "valueLog", "rewrite", "gcActive.Store(true)", ".iterate("), "value.go:valueLog.rewrite [gcActive.Store(true) vs scan]"})
+	facts = append(facts, fact{"ord_flush_manifest_wal", "op", before("levels.go", "levelsController", "addLevel0Table", "manifest.addChanges", "tryAddLevel0Table"), "levels.go:addLevel0Table [manifest record vs publishing the table]"})
+	facts = append(facts, fact{"ord_compact_manifest_replace", "op", before("levels.go", "levelsController", "runCompactDef", "manifest.addChanges", "replaceTables"), "levels.go:runCompactDef [manifest vs replaceTables]"})
+	facts = append(facts, fact{"ord_compact_replace_delete", "op", before("levels.go", "levelsController", "runCompactDef", "replaceTables", "deleteTables"), "levels.go:runCompactDef [replaceTables vs deleteTables]"})
+	facts = append(facts, fact{"ord_commit_lock_ts", "op", before("txn.go", "Txn", "commitAndSend", "writeChLock.Lock()", "newCommitTs"), "txn.go:commitAndSend [writeChLock vs newCommitTs]"})
+	facts = append(facts, fact{"ord_commit_ts_send", "op", before("txn.go", "Txn", "commitAndSend", "newCommitTs", "sendToWriteCh"), "txn.go:commitAndSend [newCommitTs vs sendToWriteCh]"})
+	facts = append(facts, fact{"ord_commit_wait_done", "op", before("txn.go", "Txn", "commitAndSend", "req.Wait()", "orc.doneCommit(commitTs)\n\t\treturn err"), "txn.go:commitAndSend [req.Wait vs doneCommit]"})
 	// manifest rewrite rule
 	addOp("op_manifest_rewrite_threshold", "manifest.go", "manifestFile", "addChanges", "Deletions", "deletionsRewriteThreshold")
 
